@@ -759,7 +759,7 @@ def gen_spec(rng, profile="mixed"):
         scope = [s for s in scopes if rng.random() < 0.7] or ["own"]
     cfg = {"pool_scope": " ".join(scope), "test_timeout": rng.choice([1000, 1000, 1000, 200, 100])}
     if rng.random() < 0.35 or profile == "converge":
-        cfg["max_tries"] = rng.choice([1, 2, 2, 3])
+        cfg["max_tries"] = rng.choice([1, 2, 2, 3, 1, 2, 2, 3, 0])
         if rng.random() < 0.4:
             cfg["max_concurrent_tries"] = rng.choice([1, 1, 2, 3])
         if rng.random() < 0.3:
